@@ -157,12 +157,16 @@ CHECKS = {
         "exploration",
         "property-based history generation with interval-order oracles: lifecycle call histories with tick-exact offsets on a virtual loop (async servers) and randomized real-thread histories (standalone servers)",
         "Histories of serve_forever/shutdown/server_close/server_activate/connect over up to 3 tasks or threads; refusals only when the overlapping interval that justifies them exists, shutdown returns only after serving stopped, a stopped server serves again unless closed, listeners closed after server_close, nothing deadlocks.",
-        "Standalone layer: OS-owned schedule with a 30 s watchdog (3x re-run before a hang counts); two listed shapes (S1, S2) are excluded by construction, see DESIGN 7.4.",
+        "Standalone layer: OS-owned schedule with a 30 s watchdog (3x re-run before a hang counts); the two shapes S1 and S2 found by this layer were repaired in /repo and are searched again (DESIGN 7.3/7.4).",
         "DESIGN.md section 3 C18",
     ),
 }
 
 PENDING = {}
+
+# checks whose thorough tier adds the coverage-guided engine (pbt/covfuzz.py) over one of their layers
+COV = {"C01", "C02", "C03", "C04", "C05", "C07"}
+COV_NOTE = "; thorough tier adds coverage-guided fuzzing (atheris/libFuzzer driving the same Hypothesis strategy and oracle via fuzz_one_input, easynetwork instrumented)"
 
 
 def main() -> None:
@@ -183,7 +187,7 @@ def main() -> None:
                     "engine": "pbt",
                     "level_claimed": {"category": cat, "text": text, "design_ref": ref},
                     "level_note": note,
-                    "technique": tech,
+                    "technique": tech + (COV_NOTE if pid in COV else ""),
                 }
             )
         else:
